@@ -64,6 +64,30 @@ def to_fracs(p, dmax, tol):
     return num, den, near
 
 
+def gof_fallback(Y, kind, seed, scale_pow=0, M=6000):
+    """Protocol-independent fallback for executions whose generator calls cannot be bound to the chain of conditionals
+    (a different but equally valid way of drawing): empirical frequencies of M draws against the exact distribution,
+    with a bound (6.5 standard deviations per cell, all cells) that a correct sampler exceeds with probability < 1e-8;
+    the seed is fixed, so the verdict is deterministic."""
+    Fd = F.dense(Y)
+    W = Fd if kind == 'lin' else Fd * Fd
+    P = W / W.sum()
+    Yrun = [G * 2.0 ** scale_pow for G in Y] if scale_pow else Y
+    fn = teneva.sample if kind == 'lin' else teneva.sample_square
+    res = np.asarray(fn(Yrun, M, seed=np.random.default_rng(seed)) if kind == 'lin' else fn(Yrun, M, unique=False, seed=np.random.default_rng(seed)))
+    if not (res.ndim == 2 and res.shape == (M, len(Y)) and res.dtype.kind in 'iu' and (res >= 0).all() and (res < np.array(Fd.shape)).all()):
+        return 'samples have the wrong shape / type / range'
+    cnt = np.zeros(Fd.shape)
+    np.add.at(cnt, tuple(res.T), 1)
+    z = np.abs(cnt / M - P) / np.sqrt(P * (1 - P) / M + 1e-12)
+    if (cnt[P == 0] > 0).any():
+        return 'an index of probability zero was drawn'
+    if z.max() > 6.5:
+        j = np.unravel_index(np.argmax(z), z.shape)
+        return 'empirical frequency %.4f of index %s against probability %.4f (%d draws, %.1f standard deviations)' % (cnt[j] / M, list(map(int, j)), P[j], M, z.max())
+    return None
+
+
 def record_tt_sampler(Y, m, kind, seed, unique=False, scale_pow=0, **kw):
     d = len(Y)
     n = [G.shape[1] for G in Y]
@@ -111,7 +135,7 @@ def run(ctx):
     rng = np.random.default_rng(ctx.seed)
     trs, metas = [], []
     nrun = 30 if quick else 300
-    shapes = [([2, 3], 1), ([3, 2, 2], 2), ([2, 2, 3, 2], 2), ([4, 3], 3), ([3, 3, 3], 1), ([2, 1, 3], 2)]
+    shapes = [([2, 3], 1), ([3, 2, 2], 2), ([2, 2, 3, 2], 2), ([4, 3], 3), ([3, 3, 3], 1), ([2, 1, 3], 2), ([3, 1, 1, 2], 2), ([1, 3, 1], 2), ([3, 1, 4], 3)]
     unbound = 0
     for t in range(nrun):
         n, r = shapes[t % len(shapes)]
@@ -143,6 +167,12 @@ def run(ctx):
             ctx.violation('sample_square:raises' if kind == 'sq' else 'sample:raises', 'sampler raised %s: %s (n=%s, scale 2^%d per core)' % (type(ex).__name__, ex, n, scale_pow))
             continue
         unbound += 0 if bindable else 1
+        if not bindable:
+            msg = gof_fallback(Y, kind, 1 + t, scale_pow=scale_pow)
+            ctx.case(key=('gof', n, r, kind, t), nontrivial=True)
+            if msg:
+                ctx.violation('sample_square:distribution' if kind == 'sq' else 'sample:distribution',
+                              'generator calls do not follow the chain protocol and the drawn distribution is wrong: %s (n=%s rank %d)' % (msg, n, r), case={'cores': cores_json(Y), 'kind': kind})
         trs.append(tr)
         metas.append(dict(kind=kind, n=n, r=r, m=m, unique=unique))
     # restart path of the unique squared sampler: peaked tensors, m close to the number of non-negligible entries
@@ -158,6 +188,17 @@ def run(ctx):
         trs.append(tr)
         metas.append(dict(kind='sq', n=n, r=4, m=m, unique=True, peaked=True))
     ctx.notes['executions_whose_choice_calls_could_not_be_bound'] = unbound
+    # Latin hypercube counts for every (mode size, m) in a rectangle (exhaustive: the rule is arithmetic in m and n_k)
+    for nk in range(1, 13 if quick else 33):
+        for m in range(1, 421 if quick else 1200):
+            I = np.asarray(teneva.sample_lhs([nk, (nk % 5) + 1], m, seed=m))
+            ok = I.shape == (m, 2) and I.dtype.kind in 'iu'
+            if ok:
+                for col, size in ((0, nk), ((1), (nk % 5) + 1)):
+                    cnt = np.bincount(I[:, col], minlength=size)
+                    ok = ok and len(cnt) == size and cnt.min() >= m // size and cnt.max() <= -(-m // size)
+            ctx.case(key=('lhs-rect', nk, m), nontrivial=m % nk != 0 or m >= 2 * nk)
+            ctx.check(ok, 'sample_lhs:counts', 'sample_lhs(n=[%d, %d], m=%d): an index is used neither floor(m/n) nor ceil(m/n) times' % (nk, (nk % 5) + 1, m), case={'n': nk, 'm': m})
     # Latin hypercube / uniform / structured sets
     for t in range(20 if quick else 200):
         d = int(rng.integers(1, 5))
